@@ -1198,7 +1198,7 @@ class Frame:
                     fe = e.copy()
                     fe.failed = True
                     hp = b.derive(e.env if e.env is not None and e.depth == self.depth else p.env,
-                              b.events[:k] + [fe], p.conds)
+                              b.events[:k] + [fe], b.conds[:max(e.ncond, len(p.conds))])      # what the path had decided when the event failed
                     hp.env["<exc>"] = Sym("exc-of", (e.target,) if isinstance(e.target, Term) else ())
                     handler_inputs.append((hi, hp))
         for hi, hp in handler_inputs:
